@@ -297,6 +297,13 @@ class App(object):
             ws.send_binary(None)
         elif v == 'text_int':
             ws.send_text(7)
+        elif v == 'text_lone_surrogate':
+            # not encodable as UTF-8: cannot be sent (UnicodeEncodeError is
+            # a ValueError)
+            ws.send_text(u'half of a pair \ud83d')
+        elif v == 'text_surrogate_in_json':
+            ws.send_json({'k': u'\udc00 tail'}, ensure_ascii=False) \
+                if False else ws.send_text(u'\udc00 tail')
         else:
             raise ValueError(v)
 
